@@ -16,6 +16,7 @@ as borrowed `&str`, which serde_json can only provide when the key's spelling ha
 Core Lean only.
 -/
 import AskarModel.Model.Store
+import AskarModel.Generated.Flags
 
 namespace Askar.Ffi
 open Askar.Store (Err)
@@ -230,7 +231,7 @@ structure KeyTok where
 
 /-- Does the deserialiser insist on *borrowed* keys (`next_entry::<&str, _>`)?  Follows the code:
     `true` on the tree with defect D10; `false` once keys are owned (`String` / `Cow<str>`). -/
-def keysBorrowedOnly : Bool := true
+def keysBorrowedOnly : Bool := !Askar.Generated.Flags.ffiTagKeysOwned
 
 /-- `key.chars().next()` dispatch of `visit_map` -/
 def splitKey (key : String) : Except String (String × Bool) :=
@@ -546,10 +547,14 @@ def decodeUpdate (borrowOnly : Bool) (operation : Int) (category name tags : CSt
 def checkOutAndHandle (outNull handleNull : Bool) : Except Err Unit :=
   if outNull then .error .input else if handleNull then .error .input else .ok ()
 
-/-- `askar_store_generate_raw_key` writes through `out` without `check_useful_c_ptr!` -/
-inductive RawKeyOutcome | ok | segfault
+/-- `askar_store_generate_raw_key`: on the pinned tree it wrote through `out` without `check_useful_c_ptr!`
+    (defect D22); whether the current source checks the pointer is read from the source. -/
+inductive RawKeyOutcome | ok | inputError | segfault
   deriving DecidableEq, Repr
 
-def generateRawKeyOut (outNull : Bool) : RawKeyOutcome := if outNull then .segfault else .ok
+def rawKeyChecksOut : Bool := Askar.Generated.Flags.ffiRawKeyChecksOut
+
+def generateRawKeyOut (outNull : Bool) : RawKeyOutcome :=
+  if outNull then (if rawKeyChecksOut then .inputError else .segfault) else .ok
 
 end Askar.Ffi
